@@ -4,7 +4,7 @@ EXTRACT_V = "ExtractCbor.v"
 MODEL_DEPS = ["Base/Bytes.v", "Base/GoSem.v", "Gen/FromGo.v", "DM/Value.v", "Codec/Cid.v", "Codec/Cbor.v", "Codec/CborSpec.v"]
 DRIVER = "c02_driver"
 HARNESS = "c02"
-COUNTS = {"quick": 3000, "thorough": 150000}
+COUNTS = {"quick": 3000, "thorough": 60000}
 DESIGN_REF = "DESIGN.md §4 C02"
 TECHNIQUE = "Coq proof (canonical form, uniqueness, order-independence, round-trip, length law) + gotrans regeneration + differential run of the extracted model"
 LEVEL_TEXT = ("Theorems in coq/Props/C02.v about the executable model coq/Codec/Cbor.v (encoder = marshal + refmt "
